@@ -973,3 +973,79 @@ def c17_w2(ctx):
                 yield ok("C17-W2", key, at(f, line), "reachable from every outcome of the tests on other timers")
     if n == 0:
         raise Anchor("C17-W2", "timer polls")
+
+
+# ================================================================ C17-H11 / C17-W3
+@rule("C17", "C17-H11", 4, "a limit reached outside the Cancelled phase is declared through the fault handler: the timeout dispatch abandons directly only in the Cancelled phase (where running the handler again could cancel once more)", also=("C10",))
+def c17_h11(ctx):
+    n = 0
+    for adt, nm in TXNS:
+        f = ctx.one("C17-H11", nm + "::handle_timeout")
+        field = "self.recv_state" if adt == RECV else "self.send_state"
+        fl = Flow(ctx.prog, ctx.mods, f, lambda k: k[0] == "val" and k[1] == field)
+        cnt = 0
+        for b, t in f.all_calls():
+            d, r, _ = ctx.prog.callee_of(t)
+            if not (r or d or "").endswith(nm + "::abandon"):
+                continue
+            n += 1
+            cnt += 1
+            key = "%s::handle_timeout:abandon" % nm + ("#%d" % cnt if cnt > 1 else "")
+            ws = [dict(w) for w in fl.at_term(b)]
+            good = bool(ws) and all((lambda v: v is not None and v[0] and set(v[1]) == {"Cancelled"})(w.get(("val", field))) for w in ws)
+            if good:
+                yield ok("C17-H11", key, at(f, t["span"]["line"]), "abandon under %s == Cancelled" % field)
+            else:
+                yield bad("C17-H11", key, at(f, t["span"]["line"]), "the timeout dispatch abandons the transaction in a phase that may not be Cancelled: the limit fault is never declared and the handler configured for it (cancel, suspend, ignore) never runs")
+    if n == 0:
+        raise Anchor("C17-H11", "abandon() in the timeout dispatch")
+
+
+@rule("C17", "C17-W3", 4, "a PDU is marked for retransmission only because its own ACK timer expired: the pending flag of the EOF (sender) / Finished (receiver) is set to true only in the timeout dispatch under that timer's timeout_occurred(), or where the PDU is first prepared")
+def c17_w3(ctx):
+    n = 0
+    for adt, nm, setter in ((SEND, "SendTransaction", "set_eof_flag"), (RECV, "RecvTransaction", "set_finished_flag")):
+        fns = impl_fns(ctx, adt)
+        cnt = {}
+        for f in fns:
+            fl = None
+            for b, t in f.all_calls():
+                d, r, _ = ctx.prog.callee_of(t)
+                if not (r or d or "").endswith("%s::%s" % (nm, setter)):
+                    continue
+                e = ExprBuilder(ctx.prog, f).call(b, t)
+                a = e[3][1] if e[0] == "call" and len(e[3]) > 1 else None
+                if a is not None and a[0] == "const" and a[1] in (0, False):
+                    continue  # clearing the flag (checked by C10-K7 / the send functions)
+                n += 1
+                base = "%s::%s:%s(true)" % (nm, f.name, setter)
+                cnt[base] = cnt.get(base, 0) + 1
+                key = base + ("#%d" % cnt[base] if cnt[base] > 1 else "")
+                # dominated by the true edge of `self.timer.ack.timeout_occurred()` (the limit test that follows
+                # it polls the same counter, so this is a matter of control structure, not of a surviving fact)
+                from core import dominators
+                dom = dominators(f)
+                ebx = ExprBuilder(ctx.prog, f)
+                good = False
+                if f.name == "handle_timeout":
+                    for sb in f.live_blocks():
+                        st_ = f.blocks[sb]["term"]
+                        if st_["k"] != "switch":
+                            continue
+                        de = ebx.operand(st_["discr"])
+                        neg = False
+                        while de[0] == "unop" and de[1] == "Not":
+                            de = de[2]
+                            neg = not neg
+                        if de[0] == "call" and (callee_name(de) or "").endswith("Counter::timeout_occurred") and de[3] and "self.timer.ack" in expr_str(de[3][0]):
+                            zero = [tb for v, tb in st_["targets"] if v == 0]
+                            true_t = (zero[0] if zero else None) if neg else st_["otherwise"]
+                            false_t = st_["otherwise"] if neg else (zero[0] if zero else None)
+                            if true_t is not None and true_t != false_t and (true_t == b or true_t in dom.get(b, ())):
+                                good = True
+                if good:
+                    yield ok("C17-W3", key, at(f, t["span"]["line"]), "under timer.ack.timeout_occurred()")
+                else:
+                    yield bad("C17-W3", key, at(f, t["span"]["line"]), "%s marks the PDU for retransmission without its ACK timer having expired: a retransmission no expiration caused goes out, re-arms the ACK timer and counts towards a limit fault for a PDU that may already be acknowledged" % f.name)
+    if n == 0:
+        raise Anchor("C17-W3", "set_eof_flag(true) / set_finished_flag(true)")
